@@ -18,6 +18,7 @@
 package validator
 
 import (
+	"io"
 	"net/http"
 
 	"fmt"
@@ -157,7 +158,16 @@ func (v *Validator) Handle(ctx *context.Context) string {
 		}
 	}
 	if v.signer != nil {
-		if err := v.signer.Verify(req.Std()); err != nil {
+		stdr := req.Std()
+		if !req.IsStream() {
+			// The body of the underlying http.Request was consumed by
+			// FetchPayload, the signature must be verified against the
+			// payload, which is what will be forwarded.
+			r := *stdr
+			r.Body = io.NopCloser(req.GetPayload())
+			stdr = &r
+		}
+		if err := v.signer.Verify(stdr); err != nil {
 			prepareErrorResponse(http.StatusUnauthorized, "signature validator: ", err)
 			return resultInvalid
 		}
